@@ -38,7 +38,7 @@ example : ∃ c, runQ heapQ cfg0 noFail noFail 50 (assembled heapQ cfg0 [] (init
     c.pending = [] ∧ c.iter = 9 := by
   obtain ⟨c, h1, h2, _, h4, _⟩ := run_terminates_assembled cfg0_valid heapQ_ok (sched := noFail) (apply := noFail)
     (fun _ => rfl) (fun _ => rfl) (first := []) (later := (initPending cfg0).reverse)
-    (by simpa using List.reverse_perm _) 50 (by decide)
+    (by simp) 50 (by decide)
   exact ⟨c, h1, h2, by rw [h4]; decide⟩
 
 section sim
@@ -73,7 +73,7 @@ theorem sim_assembled_heap_C01 (cfg : Sim.Cfg K) (sched : Sim.View K → Except 
     rw [hr'] at hproj
     have hc : c' = s1.core := congrArg Prod.fst hproj
     subst hc
-    have hg : guard s1.core = false := by simp [guard, hpe, hres]
+    have hg : EventCore.guard s1.core = false := by simp [EventCore.guard, hpe, hres]
     have hst : Sim.runStages heapQ cfg sched n (later :: List.replicate k []) (Sim.initOn heapQ cfg first) =
         (s1, none) := by
       simp only [Sim.runStages, hr]
@@ -85,5 +85,41 @@ theorem sim_assembled_heap_C01 (cfg : Sim.Cfg K) (sched : Sim.View K → Except 
     simp [Sim.runStages, hr] at h
 
 end sim
+
+section simex
+local instance : HasExp ℚ := ⟨fun x => x⟩
+
+/-- stations A and B; x on A during [0,2), y on A during [2,3) (back-to-back reuse), z on B during [1,3), a
+    recompute event in period 2 -/
+def asmCfg : Sim.Cfg ℚ :=
+  { stations := [⟨"A", .cont 0 (some 32), 208⟩, ⟨"B", .finite [0, 8, 16], 240⟩],
+    evs := [{ session := "x", station := "A", arrival := 0, departure := 2, estDeparture := 2, requested := 3,
+              delivered := 0, rate := 0, batt := ⟨40, 5, 5, 7, 0, false, 0, 0, .continuous⟩ },
+            { session := "y", station := "A", arrival := 2, departure := 3, estDeparture := 3, requested := 9,
+              delivered := 0, rate := 0, batt := ⟨10, 8, 8, 7, 0, false, 0, 0, .continuous⟩ },
+            { session := "z", station := "B", arrival := 1, departure := 3, estDeparture := 3, requested := 5,
+              delivered := 0, rate := 0, batt := ⟨20, 2, 2, 4, 0, false, 0, 0, .continuous⟩ }],
+    recomputes := [(2, "r0")], maxRecompute := some 1, period := 5, atolCont := 1 / 1000, atolDeadband := 1 / 1000,
+    atolFinite := 1 / 1000, fullEps := 1 / 1000, noise := [] }
+
+def asmSched : Sim.View ℚ → Except Err (Sim.Schedule ℚ) := fun _ => .ok [("A", [16, 16]), ("B", [8, 8])]
+
+/-- the hypotheses of `sim_assembled_heap_C01` are satisfiable: the queue holds only z's plug-in at construction
+    (matrices of width 2), the other three events are added afterwards in reverse order, `run()` is called three
+    times; nothing raises, and the run ends after period 3 -/
+example : Valid asmCfg.core ∧
+    ([plugEv ⟨"z", "B", 1, 3⟩] ++ [recEv (2, "r0"), plugEv ⟨"y", "A", 2, 3⟩, plugEv ⟨"x", "A", 0, 2⟩]).Perm
+      (initPending asmCfg.core) ∧
+    (Sim.initOn heapQ asmCfg [plugEv ⟨"z", "B", 1, 3⟩]).pilots.width = 2 ∧
+    (Sim.runStages heapQ asmCfg asmSched 10
+      ([recEv (2, "r0"), plugEv ⟨"y", "A", 2, 3⟩, plugEv ⟨"x", "A", 0, 2⟩] :: List.replicate 2 [])
+      (Sim.initOn heapQ asmCfg [plugEv ⟨"z", "B", 1, 3⟩])).2 = none ∧
+    (Sim.runStages heapQ asmCfg asmSched 10
+      ([recEv (2, "r0"), plugEv ⟨"y", "A", 2, 3⟩, plugEv ⟨"x", "A", 0, 2⟩] :: List.replicate 2 [])
+      (Sim.initOn heapQ asmCfg [plugEv ⟨"z", "B", 1, 3⟩])).1.core.iter = 4 := by
+  refine ⟨by constructor <;> simp [asmCfg, Sim.Cfg.core, Sim.sessionOf], by decide +kernel, by decide +kernel,
+    by decide +kernel, by decide +kernel⟩
+
+end simex
 
 end Acn.C01
